@@ -22,7 +22,7 @@ class C06(Prop):
     rule = ('source kind x element count 0..8 x last-element-flagged x failing source x schedules of request(n) (n in 1,2,3,7,2^31-1), partial runs of 1..3 loop iterations, quiescence points '
             'and cancel; plus each source behind a RequestStreamResponder / channel with REQUEST_N frames arriving between iterations; non-trivial = credit arrives in at least two '
             'instalments or is exhausted before the end; distinct = distinct case; collector: limit rate 1..5 / 2^31-1 x limit count none/1..12 x 0..9 elements x end (flagged element, COMPLETE, ERROR, none) x '
-            'bursts of 1..4 frames per loop iteration, stream and channel')
+            'bursts of 1..4 frames per loop iteration, stream and channel; requester-side grants: Subscription.request(n) issued before / between / after the writes of a request frame of 1..8 fragments on a link that blocks in every write')
     assumptions = []
 
     def cases(self, rng, tier):
@@ -55,14 +55,76 @@ class C06(Prop):
             else:
                 out.append({'mode': 'collector', 'kind': 'awaitable', 'via': 'direct', 'L': rng.choice([1, 2, 3, 5, 2 ** 31 - 1]), 'C': rng.choice([None, None, 1, 2, 3, 5, 12]),
                             'k': k, 'end': end, 'extra': rng.choice([0, 0, 1, 3])})
+        # credit granted by the application on the requester side: Subscription.request(n) at any moment relative to the (possibly
+        # fragmented) request frame leaving the endpoint
+        for _ in range(n // 3):
+            grants = [[rng.choice(['now', 'now', 'after1', 'after2', 'drained']), rng.choice([1, 2, 5, 2 ** 31 - 1])] for _ in range(rng.randint(1, 3))]
+            out.append({'mode': 'grant', 'kind': 'requester', 'channel': rng.random() < 0.4, 'F': rng.choice([None, 64, 64, 80]), 'size': rng.choice([0, 20, 150, 400]),
+                        'n0': rng.choice([1, 2, 7]), 'grants': grants, 'lp': rng.random() < 0.5})
         return out
 
     def run_impl(self, case):
+        if case['mode'] == 'grant':
+            return detloop.run(self._grant, case)
         if case['mode'] == 'direct':
             return detloop.run(sources.drive, case)
         if case['mode'] == 'collector':
             return detloop.run(self._collector_wire if case['via'] == 'wire' else self._collector_direct, case)
         return detloop.run(self._wire, case)
+
+    async def _grant(self, loop, case):
+        from rsocket.payload import Payload
+        from rsocket import frame as F
+        R = clientrun.ClientRun(loop, n_transports=1, ka_ms=10_000_000, life_ms=100_000_000, fragment_size_bytes=case['F'])
+        R.transports[0].length_header = case['lp']
+        c = R.build()
+        await c.connect()
+        await loop.settle()
+        t = R.transports[0]
+        base = len(t.sent)
+        t.gated = True               # from now on every write blocks until the harness releases it
+
+        class Sub:
+            subscription = None
+            def on_subscribe(self, s): self.subscription = s
+            def on_next(self, v, is_complete=False): pass
+            def on_complete(self): pass
+            def on_error(self, e): pass
+        sub = Sub()
+        payload = Payload(bytes([7]) * case['size'])
+        if case['channel']:
+            c.request_channel(payload).initial_request_n(case['n0']).subscribe(sub)
+        else:
+            c.request_stream(payload).initial_request_n(case['n0']).subscribe(sub)
+        done = []
+        writes = 0
+        for when, n in case['grants']:
+            target = {'now': 0, 'after1': 1, 'after2': 2, 'drained': 10 ** 6}[when]
+            while writes < target:
+                await loop.settle()
+                if not t.release():
+                    break
+                writes += 1
+            if when == 'drained':
+                await loop.settle()
+            sub.subscription.request(n)
+            done.append(n)
+        for _ in range(2000):
+            await loop.settle()
+            if not t.release():
+                break
+        await loop.settle()
+        wire = []
+        for e in t.sent[base:]:
+            fr = e[2]
+            if isinstance(fr, (F.RequestStreamFrame, F.RequestChannelFrame)):
+                wire.append(['REQ', fr.stream_id, fr.initial_request_n, bool(fr.flags_follows)])
+            elif isinstance(fr, F.PayloadFrame):
+                wire.append(['PAY', fr.stream_id, 0, bool(fr.flags_follows)])
+            elif isinstance(fr, F.RequestNFrame):
+                wire.append(['RN', fr.stream_id, fr.request_n, False])
+        await c.close()
+        return {'wire': wire, 'granted': done}
 
     @staticmethod
     def _collector_events(case):
@@ -199,6 +261,8 @@ class C06(Prop):
         return {'trace': trace, 'completes': completes}
 
     def model_lines(self, case, obs):
+        if case['mode'] == 'grant':
+            return []
         if case['mode'] == 'collector':
             return ['collect %d %s %s' % (case['L'], '-' if case['C'] is None else case['C'], ' '.join(self._collector_events(case)))]
         if case['mode'] != 'direct':
@@ -213,6 +277,8 @@ class C06(Prop):
         return ['credit flagged=%d failing=%d count=%d %s' % (case['flagged'], case['failing'], case['count'], ' '.join(ev))]
 
     def compare(self, case, obs, answers):
+        if case['mode'] == 'grant':
+            return None
         if case['mode'] == 'collector':
             outs, _, fin = answers[0].partition('|')
             model_calls = outs.split()
@@ -237,6 +303,22 @@ class C06(Prop):
 
     def oracle(self, case, obs):
         fails = []
+        if case['mode'] == 'grant':
+            wire = obs['wire']
+            reqs = [i for i, w in enumerate(wire) if w[0] == 'REQ']
+            if not reqs:
+                return [{'signature': 'grant:no-request-frame', 'what': 'no request frame on the wire: %s' % wire[:6]}]
+            sid = wire[reqs[0]][1]
+            if wire[reqs[0]][2] != case['n0']:
+                fails.append({'signature': 'grant:initial-request-n-altered', 'what': 'initial_request_n(%d) was sent as %d' % (case['n0'], wire[reqs[0]][2])})
+            # the request frame is complete at its last fragment (the first frame of the stream without FOLLOWS)
+            last = next((i for i, w in enumerate(wire) if w[1] == sid and w[0] in ('REQ', 'PAY') and not w[3]), None)
+            rn = [(i, w[2]) for i, w in enumerate(wire) if w[0] == 'RN' and w[1] == sid]
+            if [v for _, v in rn] != obs['granted']:
+                fails.append({'signature': 'grant:credit-not-transmitted-exactly', 'what': 'Subscription.request%s reached the wire as REQUEST_N %s' % (obs['granted'], [v for _, v in rn])})
+            if last is None or any(i < last for i, _ in rn):
+                fails.append({'signature': 'grant:credit-overtakes-request', 'what': 'REQUEST_N reached the wire before the last fragment of the request frame of its stream (the responder does not know the stream yet and drops the credit): %s' % [w[0] + (':F' if w[3] else '') for w in wire][:12]})
+            return fails
         if case['mode'] == 'collector':
             L, C, k = case['L'], case['C'], case['k']
             if obs['result'] == 'no-request-frame':
@@ -306,6 +388,8 @@ class C06(Prop):
         return fails
 
     def nontrivial(self, case, obs):
+        if case['mode'] == 'grant':
+            return json.dumps(case, sort_keys=True) if len(obs['wire']) >= 3 else None
         if case['mode'] == 'collector':
             return json.dumps(case, sort_keys=True) if obs['calls'] else None
         if case['mode'] == 'direct':
@@ -321,6 +405,12 @@ class C06(Prop):
             yield 'terminal=' + str(obs['points'][-1][1])
 
     def shrink_candidates(self, case):
+        if case['mode'] == 'grant':
+            g = case['grants']
+            for i in range(len(g)):
+                if len(g) > 1:
+                    yield dict(case, grants=g[:i] + g[i + 1:])
+            return
         if case['mode'] == 'collector':
             if case['k'] > 1:
                 yield dict(case, k=case['k'] - 1)
